@@ -22,8 +22,9 @@ EXPLANATION = (
     "(stop) WalkProgram::compile pushes programs for exactly the maximal boundary-free prefix of the components; "
     "(same-compiler) component programs go through the same compiler as the complete program (C01 obligations apply); "
     "(skip / isdir, shared with C13) a cancellation skips exactly the judged directory; errors pass through untouched "
-    "(C20.forward).")
-RULES = "C02.prune (GUARD), C02.gate (PROV+SIBLING), C02.relative (TABLE), C02.stop (EFFECT), C02.component (TABLE), C02.same-compiler (WHO), C13.skip, C13.isdir"
+    "(C20.forward).  "
+    "(source, shared with C20) both public walk routes, evaluated end to end, ask walkdir - built on the base joined with the prefix - for their first item in every explored case.")
+RULES = "C02.prune (GUARD), C02.gate (PROV+SIBLING), C02.relative (TABLE), C02.stop (EFFECT), C02.component (TABLE), C02.same-compiler (WHO), C13.skip, C13.isdir, C20.source (EFFECT: every walk consults walkdir on its root)"
 
 
 def run(ctx):
@@ -42,6 +43,8 @@ def run(ctx):
     rule_stop(F, R, 3 if ctx.tier == "quick" else 4)
     rule_component(F, R)
     rule_same_compiler(F, R)
+    from . import c20
+    c20.rule_source(F, R)    # a walk that does not consult walkdir on its root yields nothing beneath it
 
 
 def component_programs(F, comps):
